@@ -144,7 +144,7 @@ def ensure_facts(features=None):
             # prune older fact dirs (keep the 4 most recent)
             base = os.path.join(WORK, "facts")
             ds = sorted((os.path.getmtime(os.path.join(base, d)), d) for d in os.listdir(base))
-            for _, d in ds[:-4]:
+            for _, d in ds[:-12]:
                 shutil.rmtree(os.path.join(base, d), ignore_errors=True)
         return out, h
     finally:
